@@ -68,7 +68,7 @@ def crash_context(spec, ev, obs):
 
 
 def engine_part(ctx):
-    n = ctx.scale(250, 8000)
+    n = ctx.scale(800, 8000)
     base = ctx.rng.randrange(10**9)
     with mp.Pool(min(16, mp.cpu_count())) as pool:
         results = pool.map(_engine_one, [base + i for i in range(n)], chunksize=8)
@@ -236,8 +236,10 @@ def real_model_lines(case, o):
     if ph == "before-launch":
         L.append({"op": "ev", "e": ["crash"]})
     elif ph in ("mid-launch", "mid-pidwrite"):
-        L.append({"op": "ev", "e": ["untilEnter", 0]})
-        L.append({"op": "ev", "e": ["crashAfterSpawn", 0]})
+        xs = [j["x"] for j in case["jobs"]]
+        oj = xs.index(o["orphan_x"]) if o.get("orphan_x") in xs else 0  # the job that was inside aio_run
+        L.append({"op": "ev", "e": ["untilEnter", oj]})
+        L.append({"op": "ev", "e": ["crashAfterSpawn", oj]})
     else:
         L.append({"op": "ev", "e": ["quiesce", []]})  # everything launchable is in its body
         if ph == "between":
